@@ -97,7 +97,7 @@ def shard_glob_random(seed, idx, n):
 
 # ---------------------------------------------------------------- rules
 
-PATHS = ["foo", "bar", "baz.py", "src/a.py", "src/b.py", "src/sub/c.py", "dst/a.py", "dst/b.py",
+PATHS = ["foo", "Foo", "bar", "baz.py", "SRC/a.py", "src/a.py", "src/b.py", "src/sub/c.py", "dst/a.py", "dst/b.py",
          "build/out", "a b", "ünï/ç", "x[1]", "src/foo", "dst/foo", "sub/dir/foo",
          # look-alikes: start with the characters of a prefix without lying below it
          "srcfoo", "srca.py", "dstfoo", "sub/dirfoo", "buildout",
@@ -106,9 +106,9 @@ PATHS = ["foo", "bar", "baz.py", "src/a.py", "src/b.py", "src/sub/c.py", "dst/a.
          "Products", "Materials", "From", "Products/a.py", "In/foo", "Create"]
 ODD_PATHS = ["src//q", "src\\w", "/abs"]
 HASHES = ["aa11", "bb22", "cc33"]
-PATTERNS = ["*", "foo", "src/*", "*.py", "[sd]*", "?oo", "nomatch", "src/a.py", "*/a.py", "b*",
+PATTERNS = ["*", "foo", "Foo", "FOO", "SRC/*", "src/*", "*.py", "[sd]*", "?oo", "nomatch", "src/a.py", "*/a.py", "b*",
             "*[!y]", "sub/*/foo", "dst/*", "a b", "x[[]1]", "ünï/*", "{x}", "Products", "Materials", "From", "Create", "With"]
-PREFIXES = ["src", "src/", "dst", "dst/", "sub/dir", "build", "", "nope", "Products", "In"]
+PREFIXES = ["src", "SRC", "src/", "dst", "dst/", "sub/dir", "build", "", "nope", "Products", "In"]
 GENERIC = ["CREATE", "DELETE", "MODIFY", "ALLOW", "DISALLOW", "REQUIRE"]
 
 
